@@ -50,6 +50,10 @@ def main(argv=None) -> int:
     except Exception:
         traceback.print_exc()
         print(f"ANALYSIS-ERROR property={prop}: internal error in the checker (see traceback)")
+        if ctx is not None and ctx.findings:
+            ctx.write = False
+            if finish(ctx, "analysis incomplete: internal error", "other") == 1:
+                return 1
         return 2
 
 
